@@ -49,6 +49,14 @@ def galerkin_check(Y, W, v, dr, dc, lamr, lamc, kr, kc):
     return span_err, float(np.max(np.abs(g)) / scale)
 
 
+def galerkin_tol(v, dr, dc, lamr, lamc, Y, W):
+    """rounding budget of the Galerkin residual: the eigenvalues of D'D (norm 4^d) are known to about eps * 4^d, and they are
+    multiplied by lam"""
+    eps = np.finfo(float).eps
+    scale = float(np.max(np.abs(W * Y))) + 1e-300
+    return 1e-8 + 200 * eps * (lamr * 4.0 ** dr + lamc * 4.0 ** dc) * float(np.max(np.abs(v))) / scale
+
+
 def correspond(ctx):
     from pybaselines import Baseline, Baseline2D
     from pybaselines.two_d import _whittaker_utils as wu, _spline_utils as su2
@@ -156,6 +164,31 @@ def correspond(ctx):
                 if not np.allclose(v, vd, rtol=0, atol=1e-7 * sc):
                     dis.append(Disagreement('c20.full', 'full-vs-direct', f'WhittakerSystem2D({(m, n)}, d={(dr, dc)}) with all eigenvectors differs from the direct '
                                             f'Kronecker solve by {float(np.max(np.abs(v - vd))):.3g}', meta, True))
+    # long grids: the smallest non-zero eigenvalues of D'D are tiny (1e-9 and below) and must still be penalised
+    for (m, n, dl) in [(160, 7, 3), (7, 150, 3), (100, 6, 4), (6, 90, 4)] + ([(500, 5, 2), (240, 8, 3)] if ctx.thorough else []):
+        long_rows = m > n
+        dr, dc = (dl, int(rng.integers(1, 3))) if long_rows else (int(rng.integers(1, 3)), dl)
+        kr, kc = (int(rng.integers(dl + 6, 30)), n) if long_rows else (m, int(rng.integers(dl + 6, 30)))
+        lamr, lamc = (float(10.0 ** int(rng.integers(6, 9))), 10.0) if long_rows else (10.0, float(10.0 ** int(rng.integers(6, 9))))
+        x, z, Y = M.make_data2d(rng, m, n)
+        W = np.round(rng.uniform(0.05, 1, (m, n)) * 64) / 64
+        meta = {'kind': 'solve', 'shape': [m, n], 'd': [dr, dc], 'eig': [kr, kc], 'lam': [lamr, lamc], 'Y': Y.tolist(), 'W': W.tolist()}
+        try:
+            with np.errstate(all='ignore'):
+                v = wu.WhittakerSystem2D((m, n), (lamr, lamc), (dr, dc), (kr, kc)).solve(Y, W)
+        except Exception as ex:
+            ctx.count('solve-raised:' + type(ex).__name__)
+            continue
+        ctx.case(('solve-long', m, n, dr, dc, kr, kc, lamr, lamc), nontrivial=True)
+        ctx.count('grid:long')
+        span_err, gal = galerkin_check(Y, W, v, dr, dc, lamr, lamc, kr, kc)
+        ctx.hist['galerkin_long_max_x1e12'] = max(ctx.hist.get('galerkin_long_max_x1e12', 0), int(gal * 1e12))
+        tol_l = galerkin_tol(v, dr, dc, lamr, lamc, Y, W)
+        ctx.hist['galerkin_long_ratio_x1000'] = max(ctx.hist.get('galerkin_long_ratio_x1000', 0), int(1000 * gal / tol_l))
+        if span_err > 1e-7 or gal > tol_l:
+            dis.append(Disagreement('c20.galerkin', 'galerkin:long', f'WhittakerSystem2D({(m, n)}, d={(dr, dc)}, num_eigens={(kr, kc)}, lam={(lamr, lamc)}): the solution is not '
+                                    f'the Galerkin solution of the documented system in the eigenbasis (distance from span {span_err:.2g}, Galerkin residual {gal:.2g})',
+                                    meta, True))
     # hosts through the public API: full eigens vs direct
     for host in ('asls', 'arpls', 'airpls'):
         m, n = (8, 8) if rng.random() < 0.5 else (9, 7)
